@@ -585,6 +585,7 @@ func (c *compiler) VisitFuncDecl(decl *ast.FuncDecl) ast.VisitResult {
 
 	irFunc := c.mod.NewFunc(c.mangledNameDecl(decl), retTypeIr, params...) // create the ir function
 	irFunc.CallingConv = enum.CallingConvC                                 // every function is called with the c calling convention to make interaction with inbuilt stuff easier
+	zeroExtendBools(irFunc)
 	// make private functions static like in C
 	// commented out because of generics where private functions might be called
 	// from a different module
@@ -2285,7 +2286,8 @@ func (c *compiler) declareImportedFuncDecl(decl *ast.FuncDecl) {
 	}
 
 	irFunc := c.mod.NewFunc(mangledName, retTypeIr, params...) // create the ir function
-	irFunc.CallingConv = enum.CallingConvC                     // every function is called with the c calling convention to make interaction with inbuilt stuff easier
+	zeroExtendBools(irFunc)
+	irFunc.CallingConv = enum.CallingConvC // every function is called with the c calling convention to make interaction with inbuilt stuff easier
 	// declare it as extern function
 	irFunc.Linkage = enum.LinkageExternal
 	irFunc.Visibility = enum.VisibilityDefault
